@@ -35,6 +35,16 @@ CHECKS["C08"] = dict(
     level_note="Trusted: go/ssa, gosym, z3, grpc status stub (code+details).",
 )
 
+CHECKS["C09"] = dict(
+    runs=[dict(pkg="server", harness="VfC09_modify2", reach=["end", "terminated", "clean"], thorough=dict(skip=True),
+               bounds="real Server.Modify (3 goroutines, channels) on a scripted stream of 2 symbolic messages then EOF; one other live session with arbitrary parameters; arbitrary election state; deterministic schedule"),
+          dict(pkg="server", harness="VfC09_modify3", reach=["end", "terminated", "clean"], quick=dict(skip=True),
+               bounds="as modify2 with 3 messages (reaches every state of the per-session automaton)")],
+    assumptions=["enum fields range over their defined values", "status codes are pinned only where the specification/compliance suite pins them (DESIGN.md C09)"],
+    level_text="Bounded symbolic execution of the real Modify entry point against an independent automaton of the session rules; message contents (modes, 128-bit ids) are symbolic.",
+    level_note="Trusted: go/ssa, gosym (coroutine scheduler, one schedule per path), z3, grpc status stub. Interleavings are C10/C11's subject.",
+)
+
 NOT_APPLICABLE = {
     "C19": "whole compliance-suite runs over in-memory gRPC against wrapped servers in every order: a whole-program execution through gRPC, testing and reflection; no bounded symbolic encoding within reach (DESIGN.md §8)",
 }
